@@ -98,7 +98,7 @@ def decl_cases(maxattrs):
     for typ, sels in DUMMY_TYPES.items():
         for sel in sels:
             for attrs in attr_lists(DUMMY_ATTRS, maxattrs):
-                for doc in ("none", "trail", "pre"):
+                for doc in ("none", "trail", "pre") + (("exec_trail", "exec_post") if not attrs and sel == sels[0] else ()):
                     yield ("dummy", typ, sel, attrs, "x", True, doc)
 
 
@@ -147,6 +147,12 @@ def render_decl(case):
     if doc.endswith("next_pre"):
         L.append(ind + "!> this documents the NEXT entity only")
     L.append(ind + "integer :: following_entity")
+    if doc.startswith("exec_"):
+        # documentation comments after an *executable* statement document no entity at all
+        L.append(ind + "following_entity = 1" + (" !< a remark on an executable statement" if doc == "exec_trail" else ""))
+        if doc == "exec_post":
+            L.append(ind + "!! a remark after an executable statement")
+        L.append(ind + "following_entity = 2")
     if kind == "dummy":
         L.append("  end subroutine host")
     L.append("end module hm")
@@ -286,6 +292,13 @@ def decl_case(case, acc: Acc):
     # a comment on a statement that declares several entities is not attributable to one of them
     if got_doc != want_doc and not _several_entities(ent):
         problems.append(("documentation", want_doc, got_doc))
+    if doc.startswith("exec_"):
+        fl = [i for i, t in enumerate(text.split("\n")) if "following_entity" in t][0]
+        r2 = s.result("textDocument/hover", Server.tdpp(path, fl, text.split("\n")[fl].index("following_entity") + 3))
+        h2 = parse_hover(r2["contents"]["value"]) if isinstance(r2, dict) and isinstance(r2.get("contents"), dict) else None
+        got2 = re.sub(r"\s+", " ", h2["docs"]).strip() if h2 else None
+        if got2:
+            problems.append(("documentation_after_executable_statement", "", got2))
     if doc.endswith("next_pre"):
         # ... and the block in front of the next entity belongs to that entity
         fl = [i for i, t in enumerate(text.split("\n")) if "following_entity" in t][0]
